@@ -109,6 +109,14 @@ def run(tier, seed):
             oplog = os.path.join(base, f"clean_{tagc}.log")
             rc = child(base, f"clean_{tagc}", oplog, 0, asyn, kind, K, f, m, slow=slow)
             evs, total = events_of(oplog, os.path.join(base, f"clean_{tagc}"))
+            # the finished, unkilled run has saved its last iteration (whatever the speed of the storage)
+            rfin = core.parse_resp(core.run_impl([{"op": "basedir", "path": base}, {"op": "restore", "sid": "r", "dir": f"clean_{tagc}", "solver": kind, "id": "p"}], 1)[1]["resp"])
+            res.evaluations += 1
+            if rfin.get("iter") != str(final_iter) or any(rfin.get(x) != final.get(x) for x in ("values", "gain", "hidx", "hist")):
+                res.disagreements.append({"channel": "C11/uninterrupted-run", "case": {"config": (kind, asyn, f, m), "commit_delay_s": slow}, "model": f"final iteration {final_iter}",
+                                          "impl": str({k_: rfin.get(k_) for k_ in ("iter", "error")}), "failing_input": True,
+                                          "what": f"after an uninterrupted solve({K}) and wait_until_finished the latest checkpoint restores as iteration {rfin.get('iter')}, "
+                                                  f"the run ended at iteration {final_iter}", "key": "uninterrupted-final"})
             if slow:
                 res.count("slow-commit-config")
                 # every retained step of the finished slow run holds the state of the iteration it is labelled with
